@@ -5,7 +5,7 @@
            spec instantiates it with Crypto/Secp256k1.v, Crypto/Hmac.v, Crypto/Ripemd160.v.
    lib_*   mirrors bitcoinlib/keys.py: HDKey.from_seed, child_private, child_public, subkey_for_path,
            public(), fingerprint, wif()/wif_public(), for compressed keys (the default), as repaired by
-           fixes/C03-1..7 (see the comments "fix n" below for what the code did before).
+           fixes/C03-1..8 (see the comments "fix n" below for what the code did before).
    Keys: an extended key is its key material (secret integer or curve point), chain code and the
    metadata triple (depth, parent fingerprint, child number).  The library object additionally caches
    byte/hex renderings of the same values; they are functions of these fields. *)
@@ -432,3 +432,211 @@ Definition lib_wif (version : bytes) (arg_private : bool) (X : lkey) : option by
                    end in
     let raw := version ++ be_bytes 1 (m_depth m) ++ m_pfp m ++ be_bytes 4 (m_index m) ++ lib_chain X ++ keydata in
     Some (b58_encode_min (raw ++ firstn 4 (sha256d raw)) 111).
+
+(* HDKey.wif(child_index=n): the export with the child number n in place of the key's own; the key object is
+   left as it is.  fix 8: before the repair the call also stored n in self.child_index (every later export and
+   as_dict() of the object then showed n), and n = 0 was ignored. *)
+Definition with_index (m : meta) (n : Z) : meta := {| m_depth := m_depth m; m_pfp := m_pfp m; m_index := n |}.
+Definition lib_with_index (X : lkey) (n : Z) : lkey :=
+  match X with
+  | XPrv x => XPrv {| xk := xk x; xc := xc x; xm := with_index (xm x) n |}
+  | XPub x => XPub {| XK := XK x; XC := XC x; XM := with_index (XM x) n |}
+  end.
+Definition lib_wif_index (version : bytes) (arg_private : bool) (X : lkey) (n : option Z) : option bytes :=
+  lib_wif version arg_private (match n with Some v => lib_with_index X v | None => X end).
+
+(* ================================================================ sessions: many calls on ONE HDKey object
+   and on the objects derived from it (public() copies, children)
+
+   The derivation methods keep no state: subkey_for_path / child_private / child_public / public() read the
+   key material (secret or point, chain code, depth, parent fingerprint, child number) of the object they are
+   called on and build a NEW object; nothing is remembered between two calls, and public() hands nothing of
+   the private original to its copy.  The only attributes an HDKey call ever writes on [self] are the wallet
+   settings network (network_change), witness_type and multisig (public_master, "if multisig: self.multisig
+   = multisig"); children and copies inherit them.  They select the account path of public_master and the
+   version bytes of wif(), never the key material.
+
+   A session is a list of requests.  Every request names the object it acts on by the number of the step that
+   created it (slot 0 = the start object, slot k+1 = the object returned by request k) and every answer shows
+   the named object after the call and the object returned.  A call that returns the object it was called on
+   (subkey_for_path("m"), network_change, the exports) or that raises creates no object: its slot stays
+   empty.  The implementation is run on whole sessions against this fold (request `sess`). *)
+
+Inductive wtype := WLegacy | WP2sh | WSegwit.      (* 'legacy' | 'p2sh-segwit' | 'segwit' *)
+
+(* the wallet settings of an HDKey object: network (name, BIP44 coin type, the two legacy version prefixes),
+   witness_type, multisig *)
+Record kcfg := { kc_net : bytes; kc_coin : Z; kc_vprv : bytes; kc_vpub : bytes; kc_wit : wtype; kc_multi : bool }.
+Record hobj := { ho_key : lkey; ho_cfg : kcfg }.
+
+Inductive sop :=
+| SPath (path : bytes)                        (* subkey_for_path(path), path a string or the list of its elements *)
+| SChildPriv (index : Z) (hardened : bool)    (* child_private(index, hardened) *)
+| SChildPub (index : Z)                       (* child_public(index) *)
+| SPublic                                     (* public() *)
+| SMaster (account : Z) (purpose : option Z) (multisig : option bool) (wit : option wtype) (as_private : bool)
+                                              (* public_master(account, purpose, multisig, witness_type, as_private);
+                                                 public_master_multisig(...) is multisig = Some true *)
+| SNet (name : bytes) (coin : Z) (vprv vpub : bytes)   (* network_change(name) *)
+| SExport.                                    (* wif() / wif_public() / as_dict(): the object is only observed *)
+
+Record sreq := { rq_slot : nat; rq_op : sop }.
+
+(* get_key_structure_data(witness_type, multisig): the purpose of the wallet structure *)
+Definition pm_default_purpose (w : wtype) (multi : bool) : Z :=
+  if multi then match w with WLegacy => 45 | _ => 48 end
+  else match w with WLegacy => 44 | WP2sh => 49 | WSegwit => 84 end.
+
+(* path_expand(path_template[:pm_depth], ...): the template up to its last hardened level, variables replaced.
+   "purpose = ks[0]['purpose'] if not purpose else purpose": None and 0 mean the default. *)
+Definition pm_items (c : kcfg) (purpose : option Z) (account : Z) : list (Z * bool) :=
+  let dflt := pm_default_purpose (kc_wit c) (kc_multi c) in
+  let p := match purpose with Some v => if v =? 0 then dflt else v | None => dflt end in
+  if kc_multi c then
+    match kc_wit c with
+    | WLegacy => [(p, true)]                                                        (* m/purpose' *)
+    | w => [(p, true); (kc_coin c, true); (account, true);
+            ((match w with WP2sh => 1 | _ => 2 end), true)]                         (* m/purpose'/coin'/account'/script' *)
+    end
+  else [(p, true); (kc_coin c, true); (account, true)].                             (* m/purpose'/coin'/account' *)
+
+(* the range tests subkey_for_path applies to an element that is already a number *)
+Definition lib_check_item (it : Z * bool) : option (Z * bool) :=
+  let (index, hardened) := it in
+  if index <? 0 then None
+  else if hardened && (two31 <=? index) then None
+  else Some it.
+
+(* HDKey.public_master: subkey_for_path(m/...) of the account path, then public() unless as_private *)
+Definition lib_public_master (X : lkey) (c : kcfg) (account : Z) (purpose : option Z) (as_private : bool) : option lkey :=
+  match map_opt lib_check_item (pm_items c purpose account) with
+  | None => None
+  | Some items => option_map (fun k => if as_private then k else lib_public k) (lib_walk false X items)
+  end.
+
+(* what the call writes on the object it is called on (before anything can raise) *)
+Definition cfg_after (c : kcfg) (op : sop) : kcfg :=
+  match op with
+  | SMaster _ _ multi wit _ =>
+      {| kc_net := kc_net c; kc_coin := kc_coin c; kc_vprv := kc_vprv c; kc_vpub := kc_vpub c;
+         kc_wit := match wit with Some w => w | None => kc_wit c end;
+         kc_multi := match multi with Some true => true | _ => kc_multi c end |}
+  | SNet name coin vprv vpub =>
+      {| kc_net := name; kc_coin := coin; kc_vprv := vprv; kc_vpub := vpub; kc_wit := kc_wit c; kc_multi := kc_multi c |}
+  | _ => c
+  end.
+
+(* the key the call returns — a function of the key material and settings of the object it is called on *)
+Definition op_key (k : lkey) (c : kcfg) (op : sop) : option lkey :=
+  match op with
+  | SPath p => lib_subkey_for_path k p
+  | SChildPriv i h => lib_child_private k i h
+  | SChildPub i => lib_child_public k i
+  | SPublic => Some (lib_public k)
+  | SMaster account purpose _ _ as_private => lib_public_master k c account purpose as_private
+  | SNet _ _ _ _ => Some k
+  | SExport => Some k
+  end.
+
+(* the call returns the very object it was called on (no new object) *)
+Definition op_self (k : lkey) (op : sop) : bool :=
+  match op with
+  | SPath p => match lib_parse_path p with
+               | Some (fp, []) => negb (fp && lib_is_private k)
+               | _ => false
+               end
+  | SNet _ _ _ _ => true
+  | SExport => true
+  | _ => false
+  end.
+
+(* the settings do not enter the answer of these calls *)
+Definition op_cfg_free (op : sop) : bool :=
+  match op with SMaster _ _ _ _ _ => false | _ => true end.
+
+Inductive sres := RFail | RSelf | RNew (o : hobj).
+Record sans := { an_target : option hobj;      (* the object named by the request, after the call; None = no such object *)
+                 an_result : sres }.
+
+Definition sstate := list (option hobj).
+
+Fixpoint slot_set (st : sstate) (n : nat) (o : hobj) : sstate :=
+  match st, n with
+  | [], _ => []
+  | _ :: r, O => Some o :: r
+  | x :: r, S m => x :: slot_set r m o
+  end.
+
+Definition slot_get (st : sstate) (n : nat) : option hobj :=
+  match nth_error st n with Some (Some o) => Some o | _ => None end.
+
+Definition session_step (st : sstate) (r : sreq) : sstate * sans :=
+  match slot_get st (rq_slot r) with
+  | None => (st ++ [None], {| an_target := None; an_result := RFail |})
+  | Some o =>
+      let c := cfg_after (ho_cfg o) (rq_op r) in
+      let o' := {| ho_key := ho_key o; ho_cfg := c |} in
+      let st1 := slot_set st (rq_slot r) o' in
+      match op_key (ho_key o) c (rq_op r) with
+      | None => (st1 ++ [None], {| an_target := Some o'; an_result := RFail |})
+      | Some k' =>
+          if op_self (ho_key o) (rq_op r) then (st1 ++ [None], {| an_target := Some o'; an_result := RSelf |})
+          else let n := {| ho_key := k'; ho_cfg := c |} in
+               (st1 ++ [Some n], {| an_target := Some o'; an_result := RNew n |})
+      end
+  end.
+
+Fixpoint session_run (st : sstate) (reqs : list sreq) : sstate * list sans :=
+  match reqs with
+  | [] => (st, [])
+  | r :: rest =>
+      let (st1, a) := session_step st r in
+      let (st2, l) := session_run st1 rest in
+      (st2, a :: l)
+  end.
+
+Definition lib_session (X : hobj) (reqs : list sreq) : list sans := snd (session_run [Some X] reqs).
+Definition session_slots (X : hobj) (reqs : list sreq) : sstate := fst (session_run [Some X] reqs).
+
+(* the key material a session answer returns: the returned object's, or the named object's for RSelf *)
+Definition ans_key (a : sans) : option lkey :=
+  match an_result a with
+  | RNew o => Some (ho_key o)
+  | RSelf => option_map ho_key (an_target a)
+  | RFail => None
+  end.
+
+(* a request that needs private material: every child_private, a hardened child_public index, a path with
+   a hardened element, the (hardened) account path of public_master *)
+Definition op_needs_private (op : sop) : bool :=
+  match op with
+  | SPath p => match lib_parse_path p with
+               | Some pp => existsb (fun i => two31 <=? i) (snd (sem pp))
+               | None => false
+               end
+  | SChildPriv _ _ => true
+  | SChildPub i => two31 <=? i
+  | SMaster _ _ _ _ _ => true
+  | _ => false
+  end.
+
+(* which slots hold public-only objects by construction: the start object if it is public-only, every
+   public() copy, child_public result, "M/..." path and non-as_private public_master, and everything obtained
+   from such an object *)
+Definition op_makes_public (op : sop) : bool :=
+  match op with
+  | SPath p => match lib_parse_path p with Some (true, _) => true | _ => false end     (* "M/..." *)
+  | SPublic => true
+  | SChildPub _ => true
+  | SMaster _ _ _ _ as_private => negb as_private
+  | _ => false
+  end.
+
+Fixpoint public_marks (marks : list bool) (reqs : list sreq) : list bool :=
+  match reqs with
+  | [] => marks
+  | r :: rest => public_marks (marks ++ [op_makes_public (rq_op r) || nth (rq_slot r) marks false]) rest
+  end.
+
+Definition session_public_marks (X : hobj) (reqs : list sreq) : list bool :=
+  public_marks [negb (lib_is_private (ho_key X))] reqs.
